@@ -472,6 +472,11 @@ func c10Run(ctx *Ctx, t *tape.Tape) *report.Violation {
 		}
 		h := world.GenProgram(t, gc)
 		if off {
+			// the resolution flag may be assigned at any moment, also while a
+			// path is open: a path keeps the resolution it was started with
+			for n := t.Intn(3); n > 0; n-- {
+				h = insertAt(h, t.Intn(len(h)+1), world.Op{K: world.KSetHiRes, Incr: t.Bool()})
+			}
 			// off-lattice register and LOD numbers as well
 			for i := range h {
 				switch h[i].K {
